@@ -14,6 +14,7 @@ package putsvc
 // or not).  C25 and C24 judge the recordings.
 
 import (
+	"github.com/nspcc-dev/neofs-sdk-go/session"
 	"context"
 	"crypto/ecdsa"
 	"crypto/elliptic"
@@ -160,6 +161,7 @@ func (x *pvCnrNodes) PrimaryCounts() []uint                             { return
 func (x *pvCnrNodes) ECRules() []iec.Rule                               { return x.ec }
 
 type pvWorld struct {
+	lastTok *session.Object // (C24) token of the last unmutated sealed-with-session upload of this run
 	r *simkit.R
 	k *simkit.Kernel
 
